@@ -25,3 +25,21 @@ Lemma ttl_pinned : dns_host_ttl = 120 /\ dns_other_ttl = 4500 /\ class_in = 1.
 Proof. repeat split; reflexivity. Qed.
 Lemma suffix_step_pinned : name_suffix_step = 1 /\ host_suffix_step = 1.
 Proof. split; reflexivity. Qed.
+
+Lemma c07_constants :
+  (forall now, probe_next_send now = now + 250) /\
+  (forall start now, probe_expired start now = (start + 750 <=? now)) /\
+  (forall next now, probe_due next now = (next <=? now)) /\
+  jitter_bound_announce = 250 /\
+  (forall now, announce_repeat_probing now = now + 1000) /\ announce_repeat_register = 1000.
+Proof. repeat split; reflexivity. Qed.
+
+Lemma c08_constants :
+  (forall start now, tiebreak_not_started start now = (now <=? start)) /\
+  (forall now, tiebreak_defer_start now = now + 1000 /\ tiebreak_defer_next now = now + 1000) /\
+  jitter_bound_conflict = 250 /\ name_suffix_step = 1 /\ host_suffix_step = 1.
+Proof. repeat split; reflexivity. Qed.
+
+Lemma c09_constants :
+  goodbye_repeat_v4 = 120 /\ goodbye_repeat_v6 = 120 /\ dns_host_ttl = 120 /\ dns_other_ttl = 4500 /\ class_in = 1.
+Proof. repeat split; reflexivity. Qed.
